@@ -564,14 +564,21 @@ pub fn diff_native<G: AffineRepr + 'static>(shape: &crate::r1cs::Shape, seed: u6
     let fresh = |s: u64| new_shared::<G>(shape, &Default::default(), Box::new(PlainVals::<G::ScalarField>::new(HashMap::new(), s)));
     // implementation's proof
     let shr = fresh(seed);
-    let (proof, _) = prove_shape(shape, &shr, &pc, &bp, seed);
+    let (proof, mut pt) = prove_shape(shape, &shr, &pc, &bp, seed);
     match proof {
         Ok(p) => {
             rewind_for_verifier(&shr);
             let mut vt = new_verifier_transcript(shape);
             out.push(("implementation's proof accepted by the implementation".into(), build_verifier(shape, &shr, &mut vt).verify(&p, &pc, &bp).is_ok()));
             rewind_for_verifier(&shr);
+            crate::refimpl::REF_TAIL.with(|t| *t.borrow_mut() = None);
             out.push(("implementation's proof accepted by the reference verifier (unbatched relations, explicit folding, pinned transcript schedule)".into(), ref_verify(shape, &shr, B, Bb, &Gs, &Hs, &p)));
+            // the transcripts handed back by the implementation's two roles and by the reference verifier drive the same follow-up challenge
+            let (mut tp, mut tv) = ([0u8; 32], [0u8; 32]);
+            pt.challenge_bytes(b"verif-tail", &mut tp);
+            vt.challenge_bytes(b"verif-tail", &mut tv);
+            let tr = crate::refimpl::REF_TAIL.with(|t| *t.borrow());
+            out.push(("follow-up challenge: implementation's prover = implementation's verifier = reference verifier".into(), tp == tv && Some(tv) == tr));
         }
         Err(_) => out.push(("implementation proves".into(), false)),
     }
